@@ -202,6 +202,10 @@ def generate(ctx):
         yield dyn_case('sw', integrator='crank_nicolson_rk2', filters=['exponential'], nsteps=3)
         yield dyn_case('hs')
         yield dyn_case('dry', impl='fast', spacing='equiangular', integrator='backward_forward_euler', nsteps=1)
+        # planets with 2*Omega != 1 in model units (twice / half the Earth's rotation rate)
+        yield dyn_case('dry', integrator='backward_forward_euler', nsteps=2, ks=2, omega_factor=2.0)
+        yield dyn_case('moist', ks=2, omega_factor=0.5)
+        yield dyn_case('sw', ks=2, omega_factor=2.0)
         yield dyn_case('dry', impl='fast', fast_kw=dict(stacked_fourier_transforms=True))
     else:
         for kind in ('dry', 'time', 'moist', 'cloud', 'sw'):
@@ -215,6 +219,9 @@ def generate(ctx):
             yield dyn_case(kind, impl='fast', spacing='equiangular', integrator='imex_rk_sil3', filters=['exponential'], nsteps=2)
             yield dyn_case(kind, impl='real', spacing='equiangular', integrator='crank_nicolson_rk4', nsteps=2, I=12, J=8)  # (grids with pole nodes have sec2_lat = inf: no dynamics there)
         yield dyn_case('dry', integrator='crank_nicolson_rk2', nsteps=2, I=12, J=6)
+        for kind in ('dry', 'moist', 'sw'):
+            for of in (2.0, 0.5):
+                yield dyn_case(kind, integrator='imex_rk_sil3', filters=['exponential'], nsteps=2, omega_factor=of)
         yield dyn_case('dry', integrator='imex_rk_sil3', nsteps=2, M=5, L=6, I=16, J=8, impl='fast')
 
 
@@ -287,6 +294,15 @@ def r_tables(ctx, a):
     om = float(specs.angular_velocity)
     mo = ctx.model.call(5, [g.nodal_shape[0], g.nodal_shape[1]], [[om], np.asarray(g.nodal_axes[1], dtype=np.float64)])
     ctx.corr('coriolis_parameter (primitive equations) vs model', cor, mo, scale=2 * abs(om))
+    pe = dyn.mods()['pe']; scales = dyn.mods()['scales']
+    for fac in (2.0, 0.5):
+        specs2 = pe.PrimitiveEquationsSpecs.from_si(angular_velocity_si=fac * scales.ANGULAR_VELOCITY)
+        eq2 = dyn.pe_equation('dry', c, specs2, [250.0, 250.0])
+        om2 = float(specs2.angular_velocity)
+        mo3 = ctx.model.call(5, [g.nodal_shape[0], g.nodal_shape[1]], [[om2], np.asarray(g.nodal_axes[1], dtype=np.float64)])
+        for n in (1, 2):
+            ctx.corr(f'coriolis_parameter (primitive equations, {fac} x Earth rotation, read #{n} on the same coordinates) vs model',
+                     np.asarray(eq2.coriolis_parameter, dtype=np.float64), mo3, scale=2 * abs(om2))
     swc = dyn.layer_coords(g, 1)
     sweq = dyn.sw_equation(swc, [1.0], [1.0], omega=0.75)
     cor2 = np.asarray(sweq.coriolis_parameter, dtype=np.float64)
@@ -412,7 +428,8 @@ def r_ops(ctx, a):
 # oracles: tendencies and trajectories
 # ---------------------------------------------------------------------------
 def _dyn_setup(a, rng):
-    """returns (grid, random orography, state maker, fn(oro, state) -> dict of results), all jitted once"""
+    """returns (grid, random orography, state maker, fn(oro, state) -> dict of results [jitted once],
+    eager pieces: dict(mk_eq, specs, omega, explicit) built on the SAME coordinate system object)"""
     m = dyn.mods(); jax = m['jax']; jnp = m['jnp']; ti = m['ti']; pe = m['pe']; sw = m['sw']
     g = _grid(a); kind = a['kind']
     deg = g.total_wavenumbers - 2
@@ -420,13 +437,15 @@ def _dyn_setup(a, rng):
     K = 3
     dt = 0.05 if kind == 'sw' else 0.02
     lf = a.get('integrator') == 'semi_implicit_leapfrog'
+    of = float(a.get('omega_factor', 1.0))     # rotation rate in units of the Earth's
     if kind == 'sw':
         c = dyn.layer_coords(g, 2)
-        specs = sw.ShallowWaterSpecs(np.asarray([1.0, 1.25]), 1.0, 1.0, 1.0, m['scales'].DEFAULT_SCALE)
+        specs = sw.ShallowWaterSpecs(np.asarray([1.0, 1.25]), 1.0, 1.0 * of, 1.0, m['scales'].DEFAULT_SCALE)
         mk_eq = lambda o: sw.ShallowWaterEquations(c, specs, o, np.asarray([1.0, 0.5]))
         mk_state = lambda: dyn.sw_state(rng, c, deg)
     else:
-        c = dyn.coords(g, util.uneven_boundaries(rng, K)); specs = dyn.pe_specs()
+        c = dyn.coords(g, util.uneven_boundaries(rng, K))
+        specs = pe.PrimitiveEquationsSpecs.from_si(angular_velocity_si=of * m['scales'].ANGULAR_VELOCITY)
         tref = 250.0 + rng.integers(-20, 21, size=K).astype(np.float64)
         k2 = 'dry' if kind == 'hs' else kind
         cls = getattr(pe, dyn.PE_CLASSES[k2])
@@ -440,7 +459,10 @@ def _dyn_setup(a, rng):
         hs = held_suarez.HeldSuarezForcing(c, specs, tref)
         def fn(o, st, eta=0.03):
             return {'held_suarez.explicit_terms': hs.explicit_terms(st)}
+        eager = dict(mk_eq=None, explicit=lambda o, st: hs.explicit_terms(st), name='held_suarez.explicit_terms', omega=None)
     else:
+        eager = dict(mk_eq=mk_eq, explicit=lambda o, st: mk_eq(o).explicit_terms(st), name='explicit_terms',
+                     omega=float(specs.angular_velocity))
         def fn(o, st, eta=0.03):
             eq = mk_eq(o)
             out = {'explicit_terms': eq.explicit_terms(st), 'implicit_terms': eq.implicit_terms(st),
@@ -459,7 +481,7 @@ def _dyn_setup(a, rng):
                     for _ in range(a['nsteps']): u = step(u)
                     out[f"{a['nsteps']} steps of {a['integrator']} with filters {a.get('filters', [])}"] = u
             return out
-    return g, oro, mk_state, jax.jit(fn)
+    return g, oro, mk_state, jax.jit(fn), eager
 
 
 def _to_jnp(tree):
@@ -467,11 +489,31 @@ def _to_jnp(tree):
     return m['jax'].tree_util.tree_map(lambda q: m['jnp'].asarray(q, dtype=np.float64), tree)
 
 
+def _coriolis_unchanged(ctx, g, eq, omega, when):
+    """coriolis_parameter read on the live equation object = model 2*Omega*sin(lat) at the grid nodes, and the grid's
+    cached nodal mesh is still the mesh of its nodal axes"""
+    sin_lat = np.asarray(g.nodal_axes[1], dtype=np.float64)
+    mo = ctx.model.call(5, [g.nodal_shape[0], g.nodal_shape[1]], [[omega], sin_lat])
+    ctx.corr(f'coriolis_parameter vs model 2*Omega*sin(lat) ({when} the dynamics calls)',
+             np.asarray(eq.coriolis_parameter, dtype=np.float64), mo, scale=2 * abs(omega))
+    lon, sl = g.nodal_mesh
+    want = np.meshgrid(np.asarray(g.nodal_axes[0]), sin_lat, indexing='ij')
+    ctx.oracle(f'evaluations are pure: the cached Grid.nodal_mesh is unchanged ({when} the dynamics calls)',
+               bool(np.array_equal(np.asarray(lon), want[0]) and np.array_equal(np.asarray(sl), want[1])))
+
+
+def _bit_identical(x, y):
+    la, lb = dyn.tree_leaves(x), dyn.tree_leaves(y)
+    return len(la) == len(lb) and all(np.array_equal(np.asarray(u), np.asarray(v)) for u, v in zip(la, lb))
+
+
 def r_dynamics(ctx, a):
     rng = np.random.Generator(np.random.PCG64(a['seed']))
-    g, oro, mk_state, fn = _dyn_setup(a, rng)
+    g, oro, mk_state, fn, eager = _dyn_setup(a, rng)
     st = mk_state()
-    eta = 0.03
+    eq0 = eager['mk_eq'](_to_jnp(oro)) if eager['mk_eq'] else None
+    if eq0 is not None:
+        _coriolis_unchanged(ctx, g, eq0, eager['omega'], 'before')
     base = dyn.tree_to_np(fn(_to_jnp(oro), _to_jnp(st)))
     ctx.oracle('results finite', dyn.tree_all_finite(base))
     syms = _syms(g, rng, ks=a.get('ks', 'all'))
@@ -483,6 +525,20 @@ def r_dynamics(ctx, a):
                         f"({'mirror' if T.mirror else 'rotation by grid steps'}; orography transformed too)",
                    res[name], want)
         ctx.count('sym:' + ('mirror' if T.mirror else 'rot'))
+    # the same relation evaluated eagerly (every call re-reads the tables) on the SAME coordinate-system / grid
+    # objects, in the order F(x), F(T x), F(x): no state may be carried between evaluations
+    T = syms[-1]                                  # mirror o rotation
+    ex = eager['explicit']; nm = eager['name']
+    e1 = dyn.tree_to_np(ex(_to_jnp(oro), _to_jnp(st)))
+    e2 = dyn.tree_to_np(ex(_to_jnp(T.modal(oro)), _to_jnp(T.state(st))))
+    e3 = dyn.tree_to_np(ex(_to_jnp(oro), _to_jnp(st)))
+    ctx.oracle(f"{a['kind']}: evaluations are pure: {nm}(x) evaluated again after {nm}(T x) is bit-identical",
+               _bit_identical(e1, e3))
+    _close(ctx, f"{a['kind']}: {nm} commutes with T when evaluated eagerly on the same objects (order F(x), F(T x), F(x))",
+           e2, T.state(e1))
+    _close(ctx, f"{a['kind']}: compiled and eager evaluation of {nm} agree", base[nm], e1)
+    if eq0 is not None:
+        _coriolis_unchanged(ctx, g, eq0, eager['omega'], 'after')
     if _DEBUG:
         for k2, v2 in sorted(_WORST.items()): print('   worst rel err %.2e  %s' % (v2, k2))
 
